@@ -8,6 +8,7 @@ Part 3 (E3): deferred batches / due tasks with every subset raising, under core.
 Part 4 (E3): heap shapes: every installation order of 5..7 (thorough 8) tasks with distinct due times, every single
         suspension (for n<=6 also every pair and every suspension + move), then everything fires.
 """
+import functools
 import itertools
 import math
 import time
@@ -338,22 +339,49 @@ class Boom(Exception):
     pass
 
 
-def p3_case(n, raising, parent, n_tasks, task_raising, loop_kind):
+def p3_case(n, raising, parent, n_tasks, task_raising, loop_kind, kind="function"):
     """n deferred functions; those in `raising` raise; `parent` (index or None) defers two children (the second
-    child defers a grandchild); n_tasks due tasks of which task_raising raise.  Returns (mismatch or None, calls)."""
+    child defers a grandchild); n_tasks due tasks of which task_raising raise.  kind: what sort of callable is handed
+    to core.deferred (a plain function, a functools.partial, an object with __call__, a bound method - the last three
+    with positional and keyword arguments).  Returns (mismatch or None, calls)."""
     vclock.reset(0.0)
     calls = []
 
+    def body(name, *args, **kwargs):
+        if kind != "function" and (args != (1, 2) or kwargs != {"k": 3}):
+            calls.append(("wrong-arguments", name, args, kwargs))
+        calls.append(name)
+        if name == parent:
+            defer("c0")
+            defer("c1")
+        if name == "c1":
+            defer("g0")
+        if name in raising:
+            raise Boom(name)
+
+    class Callable(object):
+        def __init__(self, name):
+            self.name = name
+
+        def __call__(self, *args, **kwargs):
+            body(self.name, *args, **kwargs)
+
+        def method(self, *args, **kwargs):
+            body(self.name, *args, **kwargs)
+
+    def defer(name):
+        if kind == "function":
+            core.deferred(make(name))
+        elif kind == "partial":
+            core.deferred(functools.partial(body, name, 1), 2, k=3)
+        elif kind == "instance":
+            core.deferred(Callable(name), 1, 2, k=3)
+        else:
+            core.deferred(Callable(name).method, 1, 2, k=3)
+
     def make(name):
         def fn():
-            calls.append(name)
-            if name == parent:
-                core.deferred(make("c0"))
-                core.deferred(make("c1"))
-            if name == "c1":
-                core.deferred(make("g0"))
-            if name in raising:
-                raise Boom(name)
+            body(name)
         return fn
 
     class T(task.OneShotTask):
@@ -370,7 +398,7 @@ def p3_case(n, raising, parent, n_tasks, task_raising, loop_kind):
     for t in ts:
         t.install_task(when=0.0)
     for i in range(n):
-        core.deferred(make(i))
+        defer(i)
 
     if loop_kind == "run_once":
         for _ in range(4 * (n + n_tasks) + 16):
@@ -432,13 +460,26 @@ def p3_cases(tier):
                                 if n >= 5 and n_tasks == 3:
                                     continue
                                 yield (n, tuple(raising) + extra, parent, n_tasks, traise, loop_kind)
+    # the same batches made of other kinds of callables (applications defer partials, callable objects and bound methods
+    # with arguments), with fewer task backgrounds
+    for kind in ("partial", "instance", "method"):
+        for loop_kind in ("run_once", "run"):
+            for n in range(1, nmax):
+                for r in range(0, n + 1):
+                    for raising in itertools.combinations(range(n), r):
+                        for parent in [None] + list(range(n)):
+                            for n_tasks, traise in ((0, ()), (2, ("t0",))):
+                                yield (n, tuple(raising), parent, n_tasks, traise, loop_kind, kind)
 
 
 def p3_shard(item, deadline):
     acc = Acc()
     for c in item:
-        n, raising, parent, n_tasks, traise, loop_kind = c
-        bad, calls = p3_case(n, set(raising), parent, n_tasks, set(traise), loop_kind)
+        n, raising, parent, n_tasks, traise, loop_kind = c[:6]
+        kind = c[6] if len(c) > 6 else "function"
+        bad, calls = p3_case(n, set(raising), parent, n_tasks, set(traise), loop_kind, kind)
+        if bad is None and any(isinstance(x, tuple) and x and x[0] == "wrong-arguments" for x in calls):
+            bad = ("deferred-callable-got-other-arguments", [x for x in calls if isinstance(x, tuple)][:2])
         acc.case(("p3",) + c)
         acc.traces += 1
         acc.transitions += len(calls)
@@ -448,7 +489,7 @@ def p3_shard(item, deadline):
             acc.fail("isolation:%s:%s:raiser-in-%s" % (loop_kind, bad[0], where if (raising or traise) else "nobody"),
                      {"mismatch": bad, "case": c, "calls": calls}, {"part": 3, "case": c})
     if item:
-        acc.sample({"part": 3, "case": item[0], "calls": p3_case(item[0][0], set(item[0][1]), item[0][2], item[0][3], set(item[0][4]), item[0][5])[1]})
+        acc.sample({"part": 3, "case": item[0], "calls": p3_case(item[0][0], set(item[0][1]), item[0][2], item[0][3], set(item[0][4]), *item[0][5:])[1]})
     return acc
 
 
@@ -586,7 +627,8 @@ def replay(case):
         bad, got = p4_case(tuple(case["order"]), tuple(case["removes"]), tuple(case["moves"]))
         return bad is None, "install due times %r, suspend %r, move %r -> %r fired %r" % (case["order"], case["removes"], case["moves"], bad, got)
     if part == 3:
-        n, raising, parent, n_tasks, traise, loop_kind = case["case"]
-        bad, calls = p3_case(n, set(raising), parent, n_tasks, set(traise), loop_kind)
+        n, raising, parent, n_tasks, traise, loop_kind = case["case"][:6]
+        kind = case["case"][6] if len(case["case"]) > 6 else "function"
+        bad, calls = p3_case(n, set(raising), parent, n_tasks, set(traise), loop_kind, kind)
         return bad is None, "deferred batch %r -> %r calls=%r" % (case["case"], bad, calls)
     return False, "unknown part"
